@@ -42,6 +42,7 @@ class Ob:
     replay_src: str = ''            # file under /repo/src whose unwoven text the replay includes (informational)
     known_key: str = ''             # stable key used in known-findings.txt
     canaries: List[str] = field(default_factory=list)   # regexes of woven canaries (outside the harness file) that must be hit
+    ignore: List[str] = field(default_factory=list)      # regexes of CBMC checks that are documented as out of scope for this obligation
     trace_vars: List[str] = field(default_factory=list)  # extra (ghost) variables whose last traced value feeds the replay
     stream_replay: str = ''       # name of a stream-level replay generator in lib/streamgen.py (runs the real lbzip2 binary)
     twin: str = ''                  # name of an explicit bounded obligation used to find a concrete input when this one fails
@@ -66,6 +67,7 @@ class Result:
     samples: List[str] = field(default_factory=list)
     solver_time: float = 0.0
     replay: str = ''
+    ignored: List[str] = field(default_factory=list)
 
 
 def _limits(mem_gb):
@@ -212,6 +214,9 @@ def build_and_check(ob: Ob, sc: Scratch, want_trace=False) -> Result:
                     canary_ok += 1
             elif required:
                 canary_bad.append(desc)
+            continue
+        if st != 'SUCCESS' and any(re.search(ig, nm + ' ' + desc) for ig in ob.ignore):
+            res.ignored.append(nm + ' ' + desc)     # documented out-of-scope check (see Ob.ignore), neither counted nor reported
             continue
         res.n_props += 1
         if st == 'SUCCESS':
